@@ -313,6 +313,17 @@ func TestC04(t *testing.T) {
 		return
 	}
 	maxL := pick(4, 6)
+	// magnitudes: sequences whose sizes sit on powers of two and multiples of 65536, one spanning feature
+	eg := enumPart(t, c04Prop, st, "large-residues")
+	for _, n := range magnitudeLensShort(thorough()) {
+		span := []Feat{{Key: "gene", Loc: lrg(1, n-1), Quals: [][]string{{"label", "f0"}}}}
+		for _, c := range []c04Case{{L: n, N: n / 2, B: 1, Feats: span}, {L: n, N: -65536, B: 65536, Feats: span}, {L: n, N: 1, B: n - 1, Feats: span}} {
+			if !eg.try(c) {
+				return
+			}
+		}
+	}
+	eg.done(true)
 	e := enumPart(t, c04Prop, st, "exhaustive-small")
 	for L := 1; L <= maxL; L++ {
 		leaves := smallLocs(L, true, false)
